@@ -8,6 +8,7 @@ package board
 import (
 	"bufio"
 	"bytes"
+	"encoding/base64"
 	"fmt"
 	"io"
 	"os"
@@ -309,6 +310,9 @@ func payload(tag string, size int) []byte {
 // empty (or absent) in others, so that whatever an entry carries can be told
 // from what its neighbours in the log carry.
 func withFields(m storage.Message, tag string) storage.Message {
+	if strings.HasPrefix(tag, "f") {
+		return m // a foreign writer's sparse line: no envelope field but id, offset, event and data
+	}
 	h := 0
 	for _, c := range tag {
 		h = h*31 + int(c)
@@ -759,6 +763,51 @@ func (w *world) run(tier string) (bool, interface{}) {
 		w.prefilled = cnt
 		w.lineEvery = []int{1, 3, 11, 37}[tp.Choose(4, "lineEvery")]
 		w.stats.Fault("long-log")
+	}
+	// another implementation of the board writes to the same file (under the same lock, with
+	// correct offsets) and leaves empty fields out of its lines; before the tasks start, a few
+	// of its lines are laid down between ordinary ones. What is read back for such a line has
+	// empty fields, whatever the line in front of it carries
+	if tp.Bool(1, 3, "foreignWriter") {
+		ph, err := file_storage.NewFileStorage(w.data, w.lock)
+		if err != nil {
+			panic(err)
+		}
+		cnt := 2 + tp.Choose(5, "foreignCount")
+		for i := 0; i < cnt; i++ {
+			off := uint64(w.prefilled)
+			call := w.tick()
+			var tg string
+			if i%2 == 0 {
+				tg = fmt.Sprintf("t%d", tagN)
+				tagN++
+				m := withFields(storage.Message{Event: "neighbour", Data: payload(tg, 20+tp.Choose(80, "neighbourSize"))}, tg)
+				if err := ph.Send(m); err != nil {
+					panic(err)
+				}
+			} else {
+				tg = fmt.Sprintf("f%d", i)
+				line := fmt.Sprintf(`{"id":"foreign-%d","offset":%d,"event":"foreign","data":%q}`+"\n", i, off, base64.StdEncoding.EncodeToString(payload(tg, 30)))
+				lk := fslock.New(w.lock)
+				if err := lk.Lock(); err != nil {
+					panic(err)
+				}
+				f, err := os.OpenFile(w.data, os.O_APPEND|os.O_WRONLY, 0644)
+				if err != nil {
+					panic(err)
+				}
+				if _, err := f.WriteString(line); err != nil {
+					panic(err)
+				}
+				f.Close()
+				_ = lk.Unlock()
+			}
+			w.sent[tg] = true
+			w.hist = append(w.hist, histOp{client: 1001, input: logInput{Send: []string{tg}}, output: logOutput{Offsets: []uint64{off}}, call: call, ret: w.tick()})
+			w.prefilled++
+		}
+		ph.Close()
+		w.stats.Fault("sparse-lines-by-a-foreign-writer")
 	}
 	for i := 0; i < nw; i++ {
 		h, err := file_storage.NewFileStorage(w.data, w.lock)
